@@ -1,5 +1,10 @@
-import GJS.Model.Gen
-import GJS.Cert
+import GJS.FlatCert
+/-
+  The generator on the flat fragment, in closed form (C02–C04; DESIGN §9.2): for EVERY object schema whose members
+  are plain scalars the model generator `Gen.run` succeeds and emits exactly one declaration, `rootDecl` — by
+  symbolic evaluation of the generator model (state monad, fuel) with inductions over the property list.
+  Core Lean only.
+-/
 namespace GJS.Props.Flat
 open GJS
 
@@ -33,8 +38,6 @@ theorem inline_flat (cfg : Config) (doc : SchemaDoc) (hc : stdCfg cfg) (f : Nat)
   simp [ht, href, henum, hext, hany, hall, hfmt, hsub, hms, scalarTy, flatRes, isPrimitiveTypeName, primitiveType, stringType,
     primitiveInt, StateT.run, bind, StateT.bind, pure, StateT.pure, get, getThe, MonadStateOf.get, StateT.get, modify, modifyGet, MonadStateOf.modifyGet, StateT.modifyGet, Except.bind, Except.pure, Except.map]
 
-/-- the Go field name of a property -/
-def fname (name : String) : String := identifierizeStr [] name
 
 def propOf (t : Schema) (name : String) : Schema := (alookup name t.node.props).getD default
 
